@@ -2671,7 +2671,14 @@ class Matrix:
             return
         if not isinstance(transform_str, str):
             raise TypeError("Must provide a string to parse")
+        try:
+            self._parse_functions(transform_str)
+        except (IndexError, TypeError):
+            # A function with missing, surplus or unusable parameters.
+            raise ValueError("Malformed transform: '%s'" % transform_str)
+        return self
 
+    def _parse_functions(self, transform_str):
         for sub_element in REGEX_TRANSFORM_TEMPLATE.findall(transform_str.lower()):
             name = sub_element[0]
             params = tuple(REGEX_TRANSFORM_PARAMETER.findall(sub_element[1]))
